@@ -67,7 +67,9 @@ class Farm:
         targets = self.pools if self.mode == 'all' else [self.pools[self.rr % len(self.pools)]]
         self.rr += 1
         for seed, pool in targets:
-            self.sem.acquire()
+            if not self.sem.acquire(timeout=900):
+                from .tlc import MachineryError
+                raise MachineryError('replay workers made no progress for 900 s')
             pool.apply_async(_run, (self.judge, payload, dict(self.params, hashseed=seed)),
                              callback=self._done(seed), error_callback=self._err)
 
